@@ -78,7 +78,7 @@ def check_case(ctx, g, model=None, stopping=True, limit=5.0):
         if model is not None and len(g["players"]) <= 400:
             model.add("solve", dict(wire.game_payload(g), prune=prune), expect=o,
                       inp={"game": gen.desc(g), "prune": prune} if len(g["players"]) <= 30 else {"meta": g.get("_meta")},
-                      suite="corr.rewards")
+                      suite="corr.rewards", cmp=wire.staged(ctx, {"rewards"}, ("outcome", "probs", "reachstrat", "nodes")))
     small = len(g["players"]) <= 30
     ctx.case({"game": gen.desc(g)} if small else {"meta": g.get("_meta")}, nt)
     ctx.count("family=" + str(g.get("_meta", {}).get("family", "?")).split(":")[0])
